@@ -8,6 +8,7 @@ import (
 	"path/filepath"
 	"sort"
 	"strings"
+	"time"
 	"unicode"
 
 	"github.com/whawty/auth/store"
@@ -186,12 +187,34 @@ func auxOf(b []byte) []byte {
 	return nil
 }
 
+// skew rewrites the time stamp of the user's current record behind the store's back (a record
+// synced from a host with another clock, restored from a backup, written after a clock step).
+func (h *hist) skew(r *rng.R, user string) {
+	f := userFile(h.pre(), user)
+	if f == nil {
+		return
+	}
+	line, rest := f.data, []byte{}
+	if i := bytes.IndexByte(line, '\n'); i >= 0 {
+		line, rest = f.data[:i], f.data[i:]
+	}
+	parts := strings.Split(string(line), ":")
+	if len(parts) != 5 {
+		return
+	}
+	now := time.Now().Unix()
+	d := []int64{2, 61, 3600, 86400 * 400, -2, -86400 * 365, -now, (1 << 62) - now, -(1 << 62) - now}[r.Intn(9)]
+	parts[1] = fmt.Sprint(now + d)
+	os.WriteFile(filepath.Join(h.base, f.name), append([]byte(strings.Join(parts, ":")), rest...), 0600)
+}
+
 func (h *hist) supported(rec *srec) bool { return h.d.Params[rec.setID] != nil }
 
 func (h *hist) write(op string, user string, pw []byte, admin bool) {
 	c := h.c
 	pre := h.pre()
 	var err error
+	clk0 := time.Now().Unix()
 	switch op {
 	case "add":
 		err = h.d.AddUser(user, string(pw), admin)
@@ -200,6 +223,7 @@ func (h *hist) write(op string, user string, pw []byte, admin bool) {
 	case "init":
 		err = h.d.Init(user, string(pw))
 	}
+	clk1 := time.Now().Unix()
 	post := snapshot(h.base)
 	var o oracle
 	salt, ts := []byte{}, int64(0)
@@ -208,6 +232,15 @@ func (h *hist) write(op string, user string, pw []byte, admin bool) {
 			if pid, sl, t, ok := parseHead(f.data); ok {
 				salt, ts = sl, t
 				o.add(h.cfg.get(pid), sl, pw)
+				// the time stamp handed to the model below is the OBSERVED one: that it is the current
+				// time (whatever the replaced record said) is checked here against the harness's own clock
+				oldts := "none"
+				if of := userFile(pre, user); of != nil {
+					if _, _, ot, ok2 := parseHead(of.data); ok2 {
+						oldts = fmt.Sprint(ot - clk0)
+					}
+				}
+				c.emit(fmt.Sprintf("law.C14.time_is_now %s %s old-minus-now=%s written-minus-now=%d", op, xs(user), oldts, t-clk0), tf(t >= clk0 && t <= clk1))
 			}
 		}
 	}
@@ -492,6 +525,9 @@ func suiteC01(c *ctx) {
 					}
 				}
 			case x < 10:
+				if h.shadow[u] != nil && r.Intn(3) == 0 {
+					h.skew(r, u)
+				}
 				h.write("update", u, genPw(r), false)
 			case x < 12:
 				h.setAdmin(u, r.Bool())
@@ -526,8 +562,8 @@ func suiteC01(c *ctx) {
 						base = genPw(r)
 					}
 					var other []byte
-					for ou, orec := range h.shadow {
-						if ou != pu {
+					for _, ou := range h.users { // (not the map: iteration order must come from the PRNG only)
+						if orec := h.shadow[ou]; orec != nil && ou != pu {
 							other = orec.pw
 							break
 						}
